@@ -7,7 +7,7 @@ reported as `timeout`, which is never turned into a violation (exit 2: undecided
 import os, time
 
 SCALE = float(os.environ.get("VERIF_RL_SCALE", "1") or 1)
-WALL_FACTOR = float(os.environ.get("VERIF_WALL_FACTOR", "8") or 8)
+WALL_FACTOR = float(os.environ.get("VERIF_WALL_FACTOR", "16") or 16)
 # resource budgets per stage for the quick tier (timeout_ms = 10000); other tiers scale linearly with timeout_ms.
 # Calibrated on the unchanged tree (tools/rl_calibrate.sh): largest consumption of a *discharged* query per stage was
 #   ematch 9.7M, pointwise 0.9M, full 5.7M, feasible 3.5M; z3 5.1 runs 0.04 .. 1 M units/s on these queries.
